@@ -40,6 +40,8 @@ def run(chk):
         m = tries % 4
         if tries <= 2:
             prog, nv = repeated_arg_program(rng, tries)      # always part of the sample: the same array in two argument positions
+        elif tries == 3:
+            prog, nv = asymmetric_fanin_program()            # always: a light first and a heavy second predecessor, light consumer
         elif m in (0, 1):
             prog, nv = programs.structured(rng)
         elif m == 2:
@@ -47,6 +49,8 @@ def run(chk):
         else:
             prog, nv = programs.gen_program(rng, max_steps=4, dtypes=("int64", "float64"))
         reserved = rng.choice([0, 0, 3000, 10 ** 5])
+        if prog.get("family") == "asymmetric-fan-in":
+            reserved = 10 ** 5      # the reserved share must be counted once per fused stage, not once per fused operation
         # projections under a roomy budget
         with traced.Session() as s:
             spec = s.spec(allowed_mem=10 ** 9, reserved_mem=reserved)
@@ -62,14 +66,14 @@ def run(chk):
         if not projs:
             continue
         done += 1
-        pick = projs if prog.get("family") == "repeated-arg" else rng.sample(projs, k=min(3, len(projs)))
+        pick = projs if prog.get("family") in ("repeated-arg", "asymmetric-fan-in") else rng.sample(projs, k=min(3, len(projs)))
         cands = sorted({m_ + d for m_ in pick for d in (-1, 0, 1)} | {max(projs) + 1})
         for allowed in cands:
             if allowed <= reserved:
                 continue
             label, og, of, forced = rng.choice([("default", True, None, False), ("default", True, None, False),
                                                 ("off", False, None, False), ("fuse_all", True, fuse_all_optimize_dag, True)])
-            if prog.get("family") == "repeated-arg":
+            if prog.get("family") in ("repeated-arg", "asymmetric-fan-in"):
                 label, og, of, forced = ("default", True, None, False)      # the clause at stake is DefaultStaysInBudget
             entry = rng.choice(["compute_method", "compute", "store", "to_zarr"])
             with traced.Session() as s:
@@ -138,6 +142,15 @@ def fanin_program(rng):
         steps += [dict(op="negative", args=[0]), dict(op="add", args=[6, 7])]
         outs = [8]
     prog = dict(inputs=inputs, steps=steps, outs=outs, family="fan-in")
+    return prog, programs.Interp(np, False).run(prog)
+
+
+def asymmetric_fanin_program():
+    """less(negative(x), add(y, z)): the second fused predecessor (two inputs) needs more than the first (one input) and more
+    than the consumer (boolean output), so the fused operation's peak is reached in a LATER stage of the fused task."""
+    inputs = [dict(shape=[20, 50], chunks=[20, 50], dtype="float64", seed=i, pattern="lin", src="asarray") for i in range(3)]
+    steps = [dict(op="negative", args=[0]), dict(op="add", args=[1, 2]), dict(op="less", args=[3, 4])]
+    prog = dict(inputs=inputs, steps=steps, outs=[5], family="asymmetric-fan-in")
     return prog, programs.Interp(np, False).run(prog)
 
 
